@@ -49,7 +49,9 @@ __CPROVER_ensures(g_num_val >= INT_MAX || (__CPROVER_return_value == (int)g_num_
 int c_strToIntSilent(void *c)
 REQ_NUMNODE(c)
 __CPROVER_assigns()
-__CPROVER_ensures(g_num_val > INT_MAX || __CPROVER_return_value == (int)g_num_val) /*@C20*/;
+__CPROVER_ensures(g_num_val > INT_MAX || __CPROVER_return_value == (int)g_num_val) /*@C20*/
+/* always a natural number that fits the word, so that the caller can negate it (x - c sugar) */
+__CPROVER_ensures(__CPROVER_return_value >= 0) /*@C20,C02*/;
 #ifdef SPEC_CHECKS_OFF
 #pragma CPROVER check pop
 #endif
